@@ -99,6 +99,12 @@ func c13Prop(c *sim.Case) {
 	}
 
 	b := w.NewBrowser("a")
+	if sim.Weighted(c, "forwarding-headers", 2, 1) == 1 {
+		// what a hop in front of the proxy claims about the original request is not what was requested
+		b.Headers = map[string]string{"x-forwarded-proto": sim.PickStr(c, "xfp", "http", "https", "wss"), "x-forwarded-host": "evil.test", "x-forwarded-port": "8080",
+			"forwarded": "for=203.0.113.7;proto=http;host=evil.test", "x-forwarded-prefix": "/prefix", "x-original-url": "/elsewhere?x=1"}
+		c.Class("request:forwarding-headers")
+	}
 	// requests for other URLs while a login is pending: each gets a new session; what counts is the last one
 	for i, n := 0, sim.Weighted(c, "earlier-requests", 3, 2, 1); i < n; i++ {
 		other := genTarget(c, "earlier")
@@ -204,6 +210,9 @@ func c13Prop(c *sim.Case) {
 func TestC13(t *testing.T) {
 	r := sim.NewRun(t, "C13")
 	defer r.Finish()
+	if r.Shard%2 == 1 {
+		sim.EnableDebugLogging() // odd shards run with every logging scope at debug level: logging must not change what is done
+	}
 	r.Rule = "client ids (reserved, space, non-ASCII; never ':'), 0-3 extra scopes (RFC 6749 scope-token alphabet; openid supplied by the real loader's defaulting), authorization and callback URIs with and without their own query, requested path?query with reserved characters; the filter config is passed through LocalConfigFile.Validate. Non-trivial = some configured value needs escaping or a URI has its own query; distinct = distinct (client id, scopes, own queries, URL class)."
 	r.Assumptions = []string{"net/url is the independent parser for Location round trips", "authorization URIs do not carry a fragment and do not reuse the names of the OIDC request parameters"}
 	parts := map[string]func(*sim.Case){"redirects": c13Prop}
